@@ -28,8 +28,8 @@ from symv.proxies import SReal, boolean, lift, model_env, real
 from . import dailyframe as F
 
 EXPLANATION = "C04: fit/predict gate logic of the three model families with stubbed numerics; persistence of disqualifications through to_json/from_json (daily, billing; hourly on a hand-written stored model)."
-BOUNDS = {"quick": dict(dq_list_length="0..2", timezones=["US/Pacific", "US/Eastern", "UTC", "America/Denver", "America/Phoenix"], classes=["baseline", "reporting", "foreign"]),
-          "thorough": dict(dq_list_length="0..3", timezones=["US/Pacific", "US/Eastern", "UTC", "America/Denver", "America/Phoenix", "Europe/London"], classes=["baseline", "reporting", "foreign"])}
+BOUNDS = {"quick": dict(dq_list_length="0..2", timezones=["US/Pacific", "US/Eastern", "UTC", "America/Denver", "America/Phoenix"], classes=["baseline", "reporting", "foreign", "baseline/reporting class of another model family"]),
+          "thorough": dict(dq_list_length="0..3", timezones=["US/Pacific", "US/Eastern", "UTC", "America/Denver", "America/Phoenix", "Europe/London"], classes=["baseline", "reporting", "foreign", "baseline/reporting class of another model family"])}
 STUBS = ["_fit/_adaptive_fit: set error['CVRMSE'] / baseline_metrics to fresh symbols and is_fitted=True", "_predict: returns a sentinel frame",
          "data objects: object.__new__(RealDataClass) with the attributes the gate reads (disqualification, warnings, tz, df)",
          "hourly settings thresholds: attribute proxy over the real settings object"]
@@ -38,7 +38,7 @@ ASSUMPTIONS = ["whether _fit succeeds numerically is outside the claim (C-level 
                "hourly storage: checked on one hand-written stored model (hourly/persist: ndq x override x json/dict route), concretely",
                "'raises exactly when' is read as: DisqualifiedModelError <=> fitted and the guards checked before it pass and dq and no override; any other refusal must be an exception, never a frame"]
 EXPECTED_REGIMES = ["fit refused for disqualified data", "fit with override", "poor fit adds a disqualification", "predict refused (DisqualifiedModelError)",
-                    "predict with override", "timezone mismatch", "foreign data class", "unfitted model", "metric undefined (None)"]
+                    "predict with override", "timezone mismatch", "foreign data class", "data class of another model family", "unfitted model", "metric undefined (None)"]
 SENTINEL = "FRAME"
 TZS = ["US/Pacific", "US/Eastern", "UTC", "America/Denver", "America/Phoenix"]  # Denver/Phoenix: same offset in winter, different zones
 
@@ -53,6 +53,8 @@ def cases(tier, seed):
             "daily/persistfit", "billing/persistfit", "hourly/persist"]
 
 
+SIBLING = {"daily": "billing", "billing": "daily", "hourly": "daily"}
+ROLES_FOREIGN = ["foreign", "sibling-baseline", "sibling-reporting"]
 FAM = {
     "daily": (dm.DailyModel, DailyBaselineData, DailyReportingData),
     "billing": (BillingModel, BillingBaselineData, BillingReportingData),
@@ -98,6 +100,10 @@ def pick_data(fam, role, ndq, tz, columns=("temperature", "observed")):
         return mkdata(B, ndq, tz, columns)
     if role == "reporting":
         return mkdata(Rp, ndq, tz, columns)
+    if role.startswith("sibling-"):
+        # the data classes of another model family are foreign types too (a billing data object handed to a daily model, ...)
+        _, B2, R2 = FAM[SIBLING[fam]]
+        return mkdata(B2 if role.endswith("baseline") else R2, ndq, tz, columns)
     return Foreign(tz)
 
 
@@ -331,19 +337,27 @@ def replay_persistfit(inp):
     import types as _t
     from opendsm.eemeter.models.daily.parameters import ModelCoefficients
     fam, ndq, ignore_fit, poor, ignore_predict = inp["fam"], inp["ndq"], inp["ignore_fit"], inp["poor"], inp["ignore_predict"]
+    prior = inp.get("prior", "none")  # an earlier fit of the SAME model object: "none" | "good" | "poor" (with its own inherited dq)
     Model = FAM[fam][0]
     m = Model()
-    data = pick_data(fam, "baseline", ndq, "US/Pacific")
     m._initialize_data = lambda md: (md, None)
     m._combinations = lambda: ["fw-su_sh_wi"]
     m._components = lambda: ["fw-su_sh_wi"]
-    m._fit_components = lambda: {}
-    cv = 2.0 if poor else 0.5
-    m._get_error_metrics = lambda combo: (0.1, 0.1, 0.1, cv, 0.1)
     m._best_combination = lambda print_out=False: "fw-su_sh_wi"
     sub = _t.SimpleNamespace(T_min=0.0, T_max=100.0, T_min_seg=5.0, T_max_seg=95.0, f_unc=1.0,
                              named_coeffs=ModelCoefficients(model_type="tidd", intercept=10.0))
     m._final_fit = lambda combo: {"fw-su_sh_wi": sub}
+
+    def residuals(is_poor):
+        # the real _get_error_metrics runs on these: RMSE = cv, mean(obs) = 1  ->  CVRMSE = cv
+        cv = 2.0 if is_poor else 0.5
+        comp = _t.SimpleNamespace(wSSE=4 * cv * cv, N=4, resid=np.array([cv, -cv, cv, -cv]), obs=np.array([0.5, 1.5, 0.5, 1.5]))
+        m._fit_components = lambda: {"fw-su_sh_wi": comp}
+    if prior != "none":
+        residuals(prior == "poor")
+        m.fit(pick_data(fam, "baseline", 1 if prior == "poor" else 0, "US/Pacific"), ignore_disqualification=True)
+    data = pick_data(fam, "baseline", ndq, "US/Pacific")
+    residuals(poor)
     try:
         m.fit(data, ignore_disqualification=ignore_fit)
     except DataSufficiencyError:
@@ -364,8 +378,9 @@ def replay_persistfit(inp):
     v2 = verdict(m2)
     n1, n2 = [w.qualified_name for w in m.disqualification], [w.qualified_name for w in m2.disqualification]
     want = "DisqualifiedModelError" if ((ndq > 0 or poor) and not ignore_predict) else "predicts"
-    bad = v1 != want or v2 != want or n1 != n2
-    return bad, f"{fam}: {ndq} inherited disqualification(s), poor fit={poor}: in memory {v1} {n1}; after to_json/from_json {v2} {n2}; expected {want}"
+    want_n = ndq + (1 if poor else 0)
+    bad = v1 != want or v2 != want or n1 != n2 or len(n1) != want_n
+    return bad, f"{fam}: earlier fit of the same object: {prior}; {ndq} inherited disqualification(s), poor fit={poor}: in memory {v1} {n1}; after to_json/from_json {v2} {n2}; expected {want}"
 
 
 REPLAY = {"fit": replay_fit, "predict": replay_predict, "persist": replay_persist, "persistfit": replay_persistfit}
@@ -390,7 +405,7 @@ def run_fit(case, fam):
     maxdq = 3 if case.tier == "thorough" else 2
 
     def run():
-        cfg = dict(role=F.choose("role", ["baseline", "reporting", "foreign"]), ndq=F.choose("ndq", list(range(maxdq + 1))),
+        cfg = dict(role=F.choose("role", ["baseline", "reporting"] + ROLES_FOREIGN), ndq=F.choose("ndq", list(range(maxdq + 1))),
                    ignore=F.choose("ignore", [False, True]))
         nones = []
         if fam == "hourly":
@@ -424,6 +439,8 @@ def run_fit(case, fam):
                 case.regime("fit refused for disqualified data")
             if cfg["role"] == "foreign":
                 case.regime("foreign data class")
+            if cfg["role"].startswith("sibling"):
+                case.regime("data class of another model family")
             continue
         case.prove(p, r["kind"] == "return" and r["returned_self"] and r["fitted"], "fit returns the fitted model (no DataSufficiencyError without an unignored disqualification)", replay=rp)
         if r["kind"] != "return":
@@ -452,7 +469,7 @@ def run_predict(case, fam):
 
     def run():
         cfg = dict(fitted=F.choose("fitted", [True, False]), ndq=F.choose("ndq", list(range(maxdq + 1))), ignore=F.choose("ignore", [False, True]),
-                   tz_model=F.choose("tz_model", tzs), tz_data=F.choose("tz_data", tzs), role=F.choose("role", ["reporting", "baseline", "foreign"]))
+                   tz_model=F.choose("tz_model", tzs), tz_data=F.choose("tz_data", tzs), role=F.choose("role", ["reporting", "baseline"] + ROLES_FOREIGN))
         if fam == "hourly":
             cfg["missing_feature"] = F.choose("missing_feature", [False, True])
         return cfg, scenario_predict(fam, cfg)
@@ -480,6 +497,7 @@ def run_predict(case, fam):
                            "DisqualifiedModelError only for a disqualified, non-overridden model", replay=rp)
             case.regime("timezone mismatch", cfg["tz_model"] != cfg["tz_data"])
             case.regime("foreign data class", cfg["role"] == "foreign")
+            case.regime("data class of another model family", cfg["role"].startswith("sibling"))
             case.regime("unfitted model", not cfg["fitted"])
         if len(case.rep["samples"]) < 2:
             case.sample(dict(cfg=cfg, outcome=r))
@@ -491,7 +509,7 @@ def run_persistfit(case, fam):
 
     def run():
         inp = dict(fam=fam, ndq=F.choose("ndq", [0, 1, 2]), ignore_fit=True, poor=F.choose("poor", [False, True]),
-                   ignore_predict=F.choose("ignore_predict", [False, True]))
+                   ignore_predict=F.choose("ignore_predict", [False, True]), prior=F.choose("prior", ["none", "good", "poor"]))
         return inp, replay_persistfit(inp)
 
     paths = case.explore(run)
